@@ -366,12 +366,21 @@ class Model:
         return best
 
     def canon(self, v, _d=0):
+        if _d == 0:
+            # the textual form is a recursive fold; programs thousands of levels deep (unbounded deciders) get a summary
+            try:
+                return self._canon(v, 1)
+            except RecursionError:
+                return f"<{type(v).__name__} program of depth {self.depth(v)}: too deep for a canonical text>"
+        return self._canon(v, _d)
+
+    def _canon(self, v, _d=0):
         if _d > 3000:
             return "<too deep>"
         if isinstance(v, list):
-            return "[" + ",".join(self.canon(x, _d + 1) for x in v) + "]"
+            return "[" + ",".join(self._canon(x, _d + 1) for x in v) + "]"
         if type(v) is tuple:
-            return "(" + ",".join(self.canon(x, _d + 1) for x in v) + ")"
+            return "(" + ",".join(self._canon(x, _d + 1) for x in v) + ")"
         if type(v) is bool:
             return f"b:{v}"
         if type(v) is int:
@@ -382,7 +391,7 @@ class Model:
             return f"s:{v!r}"
         c = type(v)
         if c in self.registered and not is_abs(c):
-            return c.__name__ + "(" + ",".join(f"{n}={self.canon(x, _d + 1) if x is not _MISSING else '<missing>'}" for n, _, x in self.field_values(v, c)) + ")"
+            return c.__name__ + "(" + ",".join(f"{n}={self._canon(x, _d + 1) if x is not _MISSING else '<missing>'}" for n, _, x in self.field_values(v, c)) + ")"
         return f"<{c.__name__}>"
 
     # ---------------------------------------------------------------- bounded language (finite-choice grammars)
